@@ -533,7 +533,11 @@ def processLine (ln : Nat) (line : String) : M Unit := do
         | _ => skip ln "parse"
       else skip ln s!"unknown-query {qn}"
   | "note" :: "okfalse" :: _ =>
-    bad ln s!"invalid {st.lastOp}: OK() is false, the object violates its class invariant"
+    -- for inexact T the closure is not idempotent and OK() re-computes it: information only
+    if c03 then info ln s!"okfalse {st.lastOp}"
+    else bad ln s!"invalid {st.lastOp}: OK() is false, the object violates its class invariant"
+  | "note" :: "nan" :: _ =>
+    bad ln s!"invalid {st.lastOp}: a bound of the object is Not-a-Number"
   | ["reset", s, n] =>
     setSlot (tokNat s) (some (mk (tokNat n) []))
   | "crash" :: sig =>
